@@ -1,0 +1,18 @@
+//! Verification hook (cargo feature `verif`): tells a harness when an analysis snapshot is
+//! released. Inert unless a callback is installed.
+use std::sync::{Arc, RwLock};
+
+type Callback = Arc<dyn Fn() + Send + Sync>;
+
+static SNAPSHOT_DROPPED: RwLock<Option<Callback>> = RwLock::new(None);
+
+pub fn set_snapshot_dropped_callback(cb: Option<Callback>) {
+    *SNAPSHOT_DROPPED.write().unwrap() = cb;
+}
+
+pub(crate) fn snapshot_dropped() {
+    let cb = SNAPSHOT_DROPPED.read().unwrap().clone();
+    if let Some(cb) = cb {
+        cb();
+    }
+}
